@@ -87,6 +87,10 @@ pub mod rustls {
         pub struct Ipv4Addr { pub x: u8 }
         pub enum IpAddr { V4(Ipv4Addr), V6 }
         pub enum ServerName<'a> { DnsName(String), IpAddress(IpAddr), Borrowed(&'a u8) }
+        impl<'a> Clone for ServerName<'a> {
+            #[verifier::external_body]
+            fn clone(&self) -> (r: Self) ensures r == *self { unimplemented!() }
+        }
         impl ServerName<'static> {
             #[verifier::external_body]
             pub fn try_from(x: String) -> (r: Result<ServerName<'static>, InvalidDnsNameError>) ensures r matches Ok(n) ==> n == ServerName::<'static>::DnsName(x) { unimplemented!() }
@@ -106,6 +110,9 @@ pub mod std_net {
     pub struct Ipv4Addr { pub x: u8 }
     impl Ipv4Addr { pub const UNSPECIFIED: Ipv4Addr = Ipv4Addr { x: 0 }; }
 }
+// std::io::Error::new(kind, text) (its bound mentions `dyn Error + Send + Sync`, outside the Verus subset - R30): an opaque error of that kind
+#[verifier::external_body]
+pub fn io_error_new(k: std::io::ErrorKind, text: String) -> (r: std::io::Error) ensures crate::io_error_kind(r) == k { unimplemented!() }
 // R27: the text of error messages is not specified by any property
 #[verifier::external_body]
 pub fn format_opaque() -> (r: String) { unimplemented!() }
@@ -130,14 +137,45 @@ pub mod tokio_rustls {
             pub fn get_ref(&self) -> (r: (&super::TcpStream, &super::ServerConnection)) ensures *r.1 == self.conn { unimplemented!() }
         }
     }
-    pub struct TlsStream { pub ghost conn: ServerConnection }
+    // a client-side session: established under this configuration, with this expected server name
+    pub ghost struct ClientSession { pub cfg: crate::tls_env::Enforced, pub name: crate::rustls::pki_types::ServerName<'static> }
+    pub mod client {
+        use vstd::prelude::*;
+        pub struct TlsStream { pub io: super::TcpStream, pub ghost session: super::ClientSession }
+    }
+    pub struct TlsStream { pub ghost conn: ServerConnection, pub ghost client: Option<ClientSession> }
     impl From<server::TlsStream> for TlsStream {
         #[verifier::external_body]
-        fn from(s: server::TlsStream) -> (r: Self) ensures r.conn == s.conn { unimplemented!() }
+        fn from(s: server::TlsStream) -> (r: Self) ensures r.conn == s.conn, r.client is None { unimplemented!() }
     }
     impl vstd::std_specs::convert::FromSpecImpl<server::TlsStream> for TlsStream {
         open spec fn obeys_from_spec() -> bool { false }
-        open spec fn from_spec(s: server::TlsStream) -> Self { TlsStream { conn: s.conn } }
+        open spec fn from_spec(s: server::TlsStream) -> Self { TlsStream { conn: s.conn, client: None } }
+    }
+    impl From<client::TlsStream> for TlsStream {
+        #[verifier::external_body]
+        fn from(s: client::TlsStream) -> (r: Self) ensures r.client == Some(s.session) { unimplemented!() }
+    }
+    impl vstd::std_specs::convert::FromSpecImpl<client::TlsStream> for TlsStream {
+        open spec fn obeys_from_spec() -> bool { false }
+        open spec fn from_spec(s: client::TlsStream) -> Self { TlsStream { conn: ServerConnection { presented: None }, client: Some(s.session) } }
+    }
+    pub struct TlsConnector { pub ghost cfg: crate::tls_env::Enforced }
+    impl From<Arc<crate::rustls::ClientConfig>> for TlsConnector {
+        #[verifier::external_body]
+        fn from(c: Arc<crate::rustls::ClientConfig>) -> (r: Self) ensures r.cfg == (*c).e { unimplemented!() }
+    }
+    impl vstd::std_specs::convert::FromSpecImpl<Arc<crate::rustls::ClientConfig>> for TlsConnector {
+        open spec fn obeys_from_spec() -> bool { false }
+        open spec fn from_spec(c: Arc<crate::rustls::ClientConfig>) -> Self { TlsConnector { cfg: (*c).e } }
+    }
+    impl TlsConnector {
+        // the handshake: Ok only when the server was validated under the connector's configuration against the given name
+        // (rustls / webpki, not decided here)
+        #[verifier::external_body]
+        pub async fn connect(&self, domain: crate::rustls::pki_types::ServerName<'static>, socket: TcpStream) -> (r: Result<client::TlsStream, std::io::Error>)
+            ensures r matches Ok(s) ==> s.session == (ClientSession { cfg: self.cfg, name: domain }),
+        { unimplemented!() }
     }
     pub struct TlsAcceptor { pub ghost cfg: crate::tls_env::Enforced }
     impl From<Arc<crate::rustls::ServerConfig>> for TlsAcceptor {
@@ -169,10 +207,13 @@ pub mod rx509 { pub mod x509 {
 //@trusted rx509::x509::Certificate::parse: opaque DER parser (`spec_parse`, uninterpreted)
 pub mod common { pub mod phys {
     use vstd::prelude::*;
-    pub struct PhysLayer { pub ghost tls: Option<crate::tokio_rustls::ServerConnection> }
+    pub struct PhysLayer { pub ghost tls: Option<crate::tokio_rustls::ServerConnection>, pub ghost client_tls: Option<crate::tokio_rustls::ClientSession> }
     impl PhysLayer {
         #[verifier::external_body]
-        pub fn new_tls(s: crate::tokio_rustls::TlsStream) -> (r: Self) ensures r.tls == Some(s.conn) { unimplemented!() }
+        pub fn new_tls(s: crate::tokio_rustls::TlsStream) -> (r: Self) ensures r.tls == Some(s.conn), r.client_tls == s.client { unimplemented!() }
+        // a plain TCP layer: no TLS session of either kind
+        #[verifier::external_body]
+        pub fn new_tcp(s: crate::tokio_rustls::TcpStream) -> (r: Self) ensures r.tls is None, r.client_tls is None { unimplemented!() }
     }
 }}
 pub mod server {
@@ -270,6 +311,11 @@ pub mod tcp { pub mod tls {
         use crate::tcp::tls::{CertificateMode, TlsError};
         use crate::rustls::pki_types::InvalidDnsNameError;
         use crate::std_net::Ipv4Addr;
+        use crate::tokio_rustls;
+        use crate::tokio_rustls::TcpStream;
+        use crate::common::phys::PhysLayer;
+        // client::HostAddr: only printed in the error text (R27)
+        pub struct HostAddr { pub x: u8 }
         impl FromSpecImpl<rustls::pki_types::InvalidDnsNameError> for TlsError {
             open spec fn obeys_from_spec() -> bool { true }
             open spec fn from_spec(e: rustls::pki_types::InvalidDnsNameError) -> Self { TlsError::InvalidDnsName }
@@ -287,6 +333,18 @@ pub mod tcp { pub mod tls {
 //@|            versions: spec_versions(min_tls_version),
 //@|            peer_cert: path_id(peer_cert_path), local_cert: path_id(local_cert_path), key: path_id(private_key_path), password: pw(password) })
 //@|        && (server_subject_name matches Some(n) ==> c.server_name == rustls::pki_types::ServerName::<'static>::DnsName(n)),
+// [C09] client side: the only layer handed to the Modbus session is a TLS session established under exactly the stored configuration
+// and expected server name; a failed handshake yields an error, never a plain-text layer
+//@fn rodbus/src/tcp/tls/client.rs | TlsClientConfig::handle_connection | tags=C09 | r27 | bsub=std::io::Error::new(=>crate::io_error_new(
+//@|    ensures r matches Ok(l) ==> l.client_tls == Some(crate::tokio_rustls::ClientSession { cfg: (*old(self).config).e, name: old(self).server_name }),
+//@|        *final(self) == *old(self),
+// [C09] the deprecated dispatcher: the certificate mode selects the constructor, the given name is the expected subject name
+//@fn rodbus/src/tcp/tls/client.rs | TlsClientConfig::new | tags=C09
+//@|    ensures r matches Ok(c) ==> (*c.config).e == (Enforced {
+//@|            peer: (if certificate_mode is AuthorityBased { PeerCheck::ChainToAuthority } else { PeerCheck::SelfSignedMatch }),
+//@|            name: (if certificate_mode is AuthorityBased { NameCheck::SanOrCommonName } else { NameCheck::NoNameCheck }),
+//@|            versions: spec_versions(min_tls_version),
+//@|            peer_cert: path_id(peer_cert_path), local_cert: path_id(local_cert_path), key: path_id(private_key_path), password: pw(password) }),
 //@fn rodbus/src/tcp/tls/client.rs | TlsClientConfig::self_signed | tags=C09 | r10
 //@|    ensures r matches Ok(c) ==> (*c.config).e == (Enforced { peer: PeerCheck::SelfSignedMatch, name: NameCheck::NoNameCheck,
 //@|            versions: spec_versions(min_tls_version),
